@@ -790,6 +790,10 @@ def to_const_poly(e: expr.Expr) -> ConstantPolynomial:
             norm_a = expr.pi
 
         norm_a = normalize_constant(norm_a)
+        if norm_a == -expr.pi:
+            # An odd multiple of pi is reduced to -pi above: use the same
+            # representative as for -pi itself.
+            norm_a = expr.pi
         if expr.match(norm_a, c * expr.pi) and norm_a.args[0].val < 0:
             neg_norm_a = expr.Const(-norm_a.args[0].val) * expr.pi
             if e.func_name in ('sin', 'tan', 'cot', 'csc'):
